@@ -7,7 +7,17 @@
    - the mutex callbacks: unlock exactly once after every enqueue, lock again before return;
    - after return every object is made ready again: a leftover registration makes a waker touch the caller's dead
      stack frame or freed heap block (runtime DEADSTACK / UAF checks);
-   - no caller keeps sleeping after an object became ready (stuck detector). */
+   - no caller keeps sleeping after an object became ready (stuck detector);
+   - r == count is refused when a note / counter of the call had been made ready by a call that RETURNED before the call
+     started or strictly before its deadline (sticky readiness), or a note's own deadline lies before the caller's;
+   - a cv index needs a signal / broadcast of that cv overlapping the call, and a registration of this call on it;
+   - the mutex is released only after all `count` enqueue callbacks returned, at most once, exactly once when the call
+     blocked on its semaphore, and THIS thread holds it on return;
+   - deadlines nsync_time_zero / before the epoch: no semaphore sleep;
+   - C03: the thread that makes an object ready writes a plain payload first; the caller to which that object is reported reads it
+     when that thread is the only possible cause (the runtime's happens-before detector judges the pair).
+   VRT_PRE=1 (default: one run in three): +1/-1 pairs and value reads on the counters by one or two threads BEFORE any wait
+   starts (callers and actors are spawned by the last of them). */
 #include "nsync.h"
 #include "vrt.h"
 #include <stdio.h>
@@ -20,13 +30,35 @@ static nsync_counter ctrs[MAXO];
 static nsync_cv cvs[MAXO];
 static int kind_of[MAXO];         /* 0 note, 1 counter, 2 cv */
 static int nobj;
-#define SIGNALLED(i) (10 + (i))    /* a signal/broadcast on cv i has been issued */
-#define ENQ 30                     /* enqueue calls seen by the probe waitable */
+#define HOLDER 3                   /* tid of the thread that holds `mu` according to the lock/unlock calls made by the scenario and the callbacks */
+#define PREDONE 4                  /* pre-phase threads that have finished */
+#define RDY(i) (15 + (i))          /* virtual time at which the sticky readiness of object i (note notified, counter zero) was COMPLETED:
+                                      nsync_note_notify / the nsync_counter_add that reached zero has RETURNED; 0 = not yet */
+#define SIGB(i) (20 + (i))         /* signals + broadcasts on cv i that have STARTED */
+#define SIGE(i) (25 + (i))         /* ... that have RETURNED */
+#define WHO_SIG(i) (55 + (i))      /* the first thread that signalled / broadcast cv i */
+#define NSTARTED(i) (60 + (i))     /* nsync_note_notify calls started on note i */
+#define WHO_N(i) (65 + (i))        /* the first thread that started one */
 #define UNLOCKS(t) (31 + 2 * (t))
 #define LOCKS(t) (32 + 2 * (t))
 #define DEC(i) (5 + (i))           /* counter i has been decremented to zero by somebody */
 static int sticky_actor;          /* some actor makes a note or a counter ready (readiness that cannot be missed) */
 static int64_t ts_ns (nsync_time t) { return (int64_t) t.tv_sec * 1000000000LL + t.tv_nsec; }
+static int64_t ndl[MAXO];         /* a note's own absolute deadline (INT64_MAX = none); written by main only */
+static int ready0[MAXO];          /* the object was ready (note notified, counter zero) before any thread started; written by main only */
+static unsigned base0[MAXO];      /* initial value of a counter; written by main only */
+
+/* per-caller bookkeeping, touched only by the caller's own thread (index = vrt_self ()) */
+static struct percall {
+	int use_mu;                   /* the current call was given the mutex */
+	long enq_b, enq_e;            /* enqueue callbacks begun / returned in the current call */
+	long cb_sleeps;               /* futex sleeps of this thread INSIDE a callback (object locks, the mutex): not nsync_wait_n's own semaphore wait */
+	int was_reg[MAXO];            /* the current call has been registered on object j (its enqueue returned 1) */
+} pc[12];
+
+/* C03 payloads: ordinary (non-atomic) client data written by the thread that makes an object ready BEFORE it does so, read by the
+   caller to which nsync_wait_n reported that object.  One slot per writer thread, so that writers never conflict with each other. */
+static int npay[MAXO][12], cpay[MAXO], vpay[MAXO][12];
 
 /* ---- notes for the lock-step tie with coq/Model/WaitNModel.v (replay/waitn_replay.ml) ----
    The waitable functions are called through thin wrappers that announce "rb/re" (ready_time begin/end),
@@ -41,48 +73,78 @@ static nsync_time w_ready (void *v, struct nsync_waiter_s *nw) {
 	struct wrapv *x = (struct wrapv *) v;
 	nsync_time r;
 	char b[32];
+	long s0 = vrt_sleeps_of (vrt_self ());
 	vrt_note ("rb %d %d %d", vrt_self (), x->j, nw == NULL);
 	r = (*x->f->ready_time) (x->v, nw);
 	vrt_note ("re %d %d %s", vrt_self (), x->j, tm_str (r, b));
+	pc[vrt_self ()].cb_sleeps += vrt_sleeps_of (vrt_self ()) - s0;
 	return r;
 }
-/* shadow bookkeeping for "a broadcast reaches every registered caller": REG(t,j) = caller t is registered on object j,
-   MUST(t) = a broadcast was issued on a cv on which t was registered, before t's deadline: t must not report a timeout */
+/* shadow bookkeeping for "a wake-up reaches the registered callers": REG(t,j) = caller t is registered on object j,
+   MUST(t) = a wake-up that had to reach t (a broadcast; a signal when t was the only registered caller) was issued on a cv on
+   which t was registered and has RETURNED before t's deadline: t must not report a timeout */
 #define REG(t,j) (100 + (t) * 8 + (j))
 #define MUST(t) (200 + (t))
 #define DLS(t) (220 + (t))
-/* called before (phase 0) and after (phase 1) nsync_cv_broadcast on object j: callers registered before the call started whose
-   deadline has still not been reached when the call has RETURNED were covered by it */
-static void note_broadcast (int j, int phase) {
-	int t, me = vrt_self ();
+/* called before (phase 0) and after (phase 1) nsync_cv_broadcast / nsync_cv_signal on object j: callers registered before the call
+   started whose deadline has still not been reached when the call has RETURNED were covered by it.  A signal wakes at least one
+   of the threads that waited before it was issued (C04): with exactly ONE caller registered (the scenario has no native
+   nsync_cv_wait waiters) that caller is the one */
+static void note_wake (int j, int phase, int is_signal) {
+	int t, me = vrt_self (), nreg = 0;
+	if (phase == 0) for (t = 1; t < 12; t++) nreg += vrt_sh_get (REG (t, j)) != 0;
 	for (t = 1; t < 12; t++) {
-		if (phase == 0) vrt_sh_set (240 + t, vrt_sh_get (REG (t, j)) ? me : 0);
+		if (phase == 0) vrt_sh_set (240 + t, vrt_sh_get (REG (t, j)) && (!is_signal || nreg == 1) ? me : 0);
 		else if (vrt_sh_get (240 + t) == me && vrt_now_ns () < vrt_sh_get (DLS (t))) vrt_sh_set (MUST (t), 1);
 	}
 }
 static int w_enqueue (void *v, struct nsync_waiter_s *nw) {
 	struct wrapv *x = (struct wrapv *) v;
+	struct percall *c = &pc[vrt_self ()];
 	int r;
+	long s0 = vrt_sleeps_of (vrt_self ());
+	c->enq_b++;
+	if (c->use_mu && vrt_sh_get (UNLOCKS (vrt_self ())) != 0)
+		vrt_fail ("C11", "object %d is enqueued after the mutex has been released: the mutex must be released only after registration on every object", x->j);
 	vrt_note ("qb %d %d", vrt_self (), x->j);
 	r = (*x->f->enqueue) (x->v, nw);
 	vrt_note ("qe %d %d %d", vrt_self (), x->j, r);
-	if (r) vrt_sh_set (REG (vrt_self (), x->j), 1);
+	if (r) { vrt_sh_set (REG (vrt_self (), x->j), 1); c->was_reg[x->j] = 1; }
+	c->enq_e++;
+	c->cb_sleeps += vrt_sleeps_of (vrt_self ()) - s0;
 	return r;
 }
 static int w_dequeue (void *v, struct nsync_waiter_s *nw) {
 	struct wrapv *x = (struct wrapv *) v;
 	int r;
+	long s0 = vrt_sleeps_of (vrt_self ());
 	vrt_note ("db %d %d", vrt_self (), x->j);
 	vrt_sh_set (REG (vrt_self (), x->j), 0);
 	r = (*x->f->dequeue) (x->v, nw);
 	vrt_note ("de %d %d %d", vrt_self (), x->j, r);
+	pc[vrt_self ()].cb_sleeps += vrt_sleeps_of (vrt_self ()) - s0;
 	return r;
 }
 static const struct nsync_waitable_funcs_s wrap_funcs = { &w_ready, &w_enqueue, &w_dequeue };
 
-/* lock callbacks that check the ordering contract */
-static void my_lock (void *m) { nsync_mu_lock ((nsync_mu *) m); vrt_note ("lock %d", vrt_self ()); vrt_acquired (m, 1); vrt_sh_add (LOCKS (vrt_self ()), 1); }
-static void my_unlock (void *m) { vrt_sh_add (UNLOCKS (vrt_self ()), 1); vrt_releasing (m, 1); vrt_note ("unlock %d", vrt_self ()); nsync_mu_unlock ((nsync_mu *) m); }
+/* lock callbacks that check the ordering contract: the mutex is released only after every one of the `count` enqueue callbacks
+   of this call has returned, by the thread that holds it; it is re-acquired only after having been released */
+static void my_lock (void *m) {
+	int me = vrt_self ();
+	long s0 = vrt_sleeps_of (me);
+	if (vrt_sh_get (LOCKS (me)) + 1 != vrt_sh_get (UNLOCKS (me))) vrt_fail ("C11", "lock callback called although the mutex had not been released by this call");
+	nsync_mu_lock ((nsync_mu *) m); vrt_note ("lock %d", me); vrt_acquired (m, 1); vrt_sh_set (HOLDER, me); vrt_sh_add (LOCKS (me), 1);
+	pc[me].cb_sleeps += vrt_sleeps_of (me) - s0;
+}
+static void my_unlock (void *m) {
+	int me = vrt_self ();
+	struct percall *c = &pc[me];
+	if (c->enq_e != nobj || c->enq_b != nobj)
+		vrt_fail ("C11", "the mutex is released after %ld of the %d enqueue calls have returned (%ld begun): it must be released only after registration on every object",
+			  c->enq_e, nobj, c->enq_b);
+	if (vrt_sh_get (HOLDER) != me) vrt_fail ("C11", "unlock callback called while thread %ld, not the caller %d, holds the mutex", vrt_sh_get (HOLDER), me);
+	vrt_sh_add (UNLOCKS (me), 1); vrt_sh_set (HOLDER, 0); vrt_releasing (m, 1); vrt_note ("unlock %d", me); nsync_mu_unlock ((nsync_mu *) m);
+}
 
 static int deep_call (int depth, int use_mu, nsync_time dl, int count, struct nsync_waitable_s *pw[]) {
 	volatile char pad[256];
@@ -94,13 +156,40 @@ static int deep_call (int depth, int use_mu, nsync_time dl, int count, struct ns
 	return r;
 }
 
+/* the three ways in which the scenario makes an object ready; each writes its payload slot first */
+static void ready_note (int i) {
+	int me = vrt_self ();
+	npay[i][me] = 1;
+	if (vrt_sh_add (NSTARTED (i), 1) == 1) vrt_sh_set (WHO_N (i), me);
+	vrt_note ("ab %d notify %d", me, i); nsync_note_notify (notes[i]); vrt_note ("ae %d", me);
+	if (vrt_sh_get (RDY (i)) == 0) vrt_sh_set (RDY (i), vrt_now_ns ());       /* sticky: the note stays notified */
+}
+static void ready_counter (int i) {
+	int me = vrt_self ();
+	if (vrt_sh_add (DEC (i), 1) == 1) {
+		cpay[i] = 1;                /* the single decrement 1 -> 0 of this counter */
+		vrt_note ("ab %d add %d -1", me, i); nsync_counter_add (ctrs[i], -1); vrt_note ("ae %d", me);
+		vrt_sh_set (RDY (i), vrt_now_ns ());                                    /* sticky: nobody increments afterwards */
+	}
+}
+static void wake_cv (int i, int is_signal) {
+	int me = vrt_self ();
+	vpay[i][me] = 1;
+	if (vrt_sh_add (SIGB (i), 1) == 1) vrt_sh_set (WHO_SIG (i), me);
+	note_wake (i, 0, is_signal);
+	if (is_signal) { vrt_note ("ab %d signal %d", me, i); nsync_cv_signal (&cvs[i]); }
+	else { vrt_note ("ab %d broadcast %d", me, i); nsync_cv_broadcast (&cvs[i]); }
+	vrt_note ("ae %d", me);
+	note_wake (i, 1, is_signal);
+	vrt_sh_add (SIGE (i), 1);
+}
+
 static void make_all_ready (void) {
 	int i;
 	for (i = 0; i < nobj; i++) {
-		if (kind_of[i] == 0) { vrt_note ("ab %d notify %d", vrt_self (), i); nsync_note_notify (notes[i]); vrt_note ("ae %d", vrt_self ()); }
-		else if (kind_of[i] == 1) {
-			if (vrt_sh_add (DEC (i), 1) == 1) { vrt_note ("ab %d add %d -1", vrt_self (), i); nsync_counter_add (ctrs[i], -1); vrt_note ("ae %d", vrt_self ()); }
-		} else { vrt_sh_set (SIGNALLED (i), 1); note_broadcast (i, 0); vrt_note ("ab %d broadcast %d", vrt_self (), i); nsync_cv_broadcast (&cvs[i]); vrt_note ("ae %d", vrt_self ()); note_broadcast (i, 1); }
+		if (kind_of[i] == 0) ready_note (i);
+		else if (kind_of[i] == 1) ready_counter (i);
+		else wake_cv (i, 0);
 	}
 }
 
@@ -108,48 +197,94 @@ static void caller (void *a) {
 	struct nsync_waitable_s w[MAXO], *pw[MAXO];
 	struct wrapv wv[MAXO];
 	char desc[64], tb[32];
+	int me = vrt_self ();
+	struct percall *c = &pc[me];
 	int i, r, use_mu = (int) vrt_rand (2), k = (int) vrt_rand (4);
 	nsync_time dl;
+	long rdy0[MAXO], sige0[MAXO];
+	int64_t dlns, t0;
 	if (k == 0 && !sticky_actor) k = 3;      /* without a guaranteed source of readiness always use a deadline */
-	dl = k == 0 ? nsync_time_no_deadline : vrt_abs ((int64_t) k * 900 - 900);
-	long cv_sig_before[MAXO];
+	if (vrt_rand (6) == 0) k = 4 + (int) vrt_rand (2);   /* the deadline values wait.c special-cases: zero, and before the epoch */
+	dl = k == 0 ? nsync_time_no_deadline : k == 4 ? nsync_time_zero : vrt_abs ((int64_t) k * 900 - 900);
+	if (k == 5) { dl.tv_sec = -3; dl.tv_nsec = 500; }
+	dlns = k == 0 ? INT64_MAX : ts_ns (dl);
 	for (i = 0; i < nobj; i++) {
 		pw[i] = &w[i];
 		if (kind_of[i] == 0) { w[i].v = notes[i]; w[i].funcs = &nsync_note_waitable_funcs; }
 		else if (kind_of[i] == 1) { w[i].v = ctrs[i]; w[i].funcs = &nsync_counter_waitable_funcs; }
 		else { w[i].v = &cvs[i]; w[i].funcs = &nsync_cv_waitable_funcs; }
-		cv_sig_before[i] = 0;
 		wv[i].v = w[i].v; wv[i].f = w[i].funcs; wv[i].j = i;
 		w[i].v = &wv[i]; w[i].funcs = &wrap_funcs;
 		desc[2 * i] = "NCV"[kind_of[i]]; desc[2 * i + 1] = ' '; desc[2 * i + 2] = 0;
 	}
 	if (nobj == 0) desc[0] = 0;
-	if (use_mu) { nsync_mu_lock (&mu); vrt_note ("mulock %d", vrt_self ()); vrt_acquired (&mu, 1); }
+	if (use_mu) { nsync_mu_lock (&mu); vrt_note ("mulock %d", me); vrt_acquired (&mu, 1); vrt_sh_set (HOLDER, me); }
 	{
-		long u0 = vrt_sh_get (UNLOCKS (vrt_self ())), l0 = vrt_sh_get (LOCKS (vrt_self ()));
-		vrt_sh_set (DLS (vrt_self ()), k == 0 ? 0x7fffffffffffffffL : (long) ts_ns (dl));
-		vrt_sh_set (MUST (vrt_self ()), 0);
-		vrt_note ("call %d %d %s %d %s", vrt_self (), use_mu, tm_str (dl, tb), nobj, desc);
+		long sl0, own;
+		/* what had COMPLETED before this call starts */
+		for (i = 0; i < nobj; i++) { rdy0[i] = vrt_sh_get (RDY (i)) != 0; sige0[i] = vrt_sh_get (SIGE (i)); c->was_reg[i] = 0; }
+		c->use_mu = use_mu; c->enq_b = c->enq_e = 0; c->cb_sleeps = 0;
+		vrt_sh_set (UNLOCKS (me), 0); vrt_sh_set (LOCKS (me), 0);
+		t0 = vrt_now_ns ();
+		sl0 = vrt_sleeps_of (me);
+		vrt_sh_set (DLS (me), k == 0 ? 0x7fffffffffffffffL : (long) ts_ns (dl));
+		vrt_sh_set (MUST (me), 0);
+		vrt_note ("call %d %d %s %d %s", me, use_mu, tm_str (dl, tb), nobj, desc);
 		r = deep_call (3, use_mu, dl, nobj, pw);
-		vrt_note ("ret %d %d", vrt_self (), r);
+		vrt_note ("ret %d %d", me, r);
+		own = vrt_sleeps_of (me) - sl0 - c->cb_sleeps;      /* sleeps of nsync_wait_n itself: on its semaphore */
 		if (use_mu && vrt_holders (&mu, 1) != 1) vrt_fail ("C01", "nsync_wait_n returned without having re-acquired the mutex: the caller believes it holds it");
-		if (use_mu && (vrt_sh_get (UNLOCKS (vrt_self ())) - u0) != (vrt_sh_get (LOCKS (vrt_self ())) - l0)) vrt_fail ("C11", "unlock/lock callbacks unbalanced");
+		if (use_mu && vrt_sh_get (HOLDER) != me) vrt_fail ("C01", "nsync_wait_n returned to thread %d without having re-acquired the mutex for it (holder: thread %ld)", me, vrt_sh_get (HOLDER));
+		if (use_mu) {
+			long nu = vrt_sh_get (UNLOCKS (me)), nl = vrt_sh_get (LOCKS (me));
+			if (nu != nl) vrt_fail ("C11", "unlock/lock callbacks unbalanced");
+			if (nu > 1) vrt_fail ("C11", "the mutex was released %ld times by one call", nu);
+			if (own > 0 && nu != 1) vrt_fail ("C11", "the call blocked on its semaphore without having released the mutex");
+		}
+		if (dlns <= t0 && own > 0) vrt_fail ("C11", "the deadline %lld had passed when the call started at %lld, yet it slept on its semaphore", (long long) dlns, (long long) t0);
 	}
 	if (r < 0 || r > nobj) vrt_fail ("C11", "result %d out of range", r);
 	if (r < nobj) {
 		vrt_count ("ret_index");
-		if (kind_of[r] == 0) vrt_note ("ab %d poll %d", vrt_self (), r);
+		if (kind_of[r] == 0) vrt_note ("ab %d poll %d", me, r);
 		if (kind_of[r] == 0 && !nsync_note_is_notified (notes[r])) vrt_fail ("C11", "returned index %d but that note is not notified", r);
-		if (kind_of[r] == 0) vrt_note ("ae %d", vrt_self ());
+		if (kind_of[r] == 0) vrt_note ("ae %d", me);
 		if (kind_of[r] == 1 && nsync_counter_value (ctrs[r]) != 0) vrt_fail ("C11", "returned index %d but that counter is %u", r, nsync_counter_value (ctrs[r]));
-		if (kind_of[r] == 2 && !vrt_sh_get (SIGNALLED (r))) vrt_fail ("C11", "returned index %d but cv %d was never signalled", r, r);
+		/* a cv is "signalled for this call" only while this call is registered on it: by a signal / broadcast that had not
+		   returned before the call started (and has started by now) */
+		if (kind_of[r] == 2 && !c->was_reg[r]) vrt_fail ("C11", "returned index %d but this call was never registered on cv %d", r, r);
+		if (kind_of[r] == 2 && vrt_sh_get (SIGB (r)) - sige0[r] <= 0)
+			vrt_fail ("C11", "returned index %d but no nsync_cv_signal / nsync_cv_broadcast of cv %d ran during this call", r, r);
+		/* C03: read the payload of the thread that made object r ready, when it is the only possible cause */
+		if (kind_of[r] == 0 && !ready0[r] && ndl[r] == INT64_MAX && vrt_sh_get (NSTARTED (r)) == 1) {
+			vrt_count ("payload_read");
+			if (npay[r][vrt_sh_get (WHO_N (r))] != 1) vrt_fail ("RACE", "payload written before nsync_note_notify of note %d is not visible", r);
+		}
+		if (kind_of[r] == 1 && !ready0[r]) {
+			vrt_count ("payload_read");
+			if (cpay[r] != 1) vrt_fail ("RACE", "payload written before the decrement to zero of counter %d is not visible", r);
+		}
+		if (kind_of[r] == 2 && vrt_sh_get (SIGB (r)) == 1) {
+			vrt_count ("payload_read");
+			if (vpay[r][vrt_sh_get (WHO_SIG (r))] != 1) vrt_fail ("RACE", "payload written before the wake-up of cv %d is not visible", r);
+		}
 	} else {
 		vrt_count ("ret_timeout");
 		if (k == 0) vrt_fail ("C11", "no deadline but returned count");
-		if (vrt_now_ns () < ts_ns (dl)) vrt_fail ("C11", "returned count before the deadline");
-		if (vrt_sh_get (MUST (vrt_self ()))) vrt_fail ("C11", "a broadcast was issued on a condition variable this call was registered on, before its deadline, yet it slept on and returned count");
+		if (vrt_now_ns () < dlns) vrt_fail ("C11", "returned count before the deadline");
+		if (vrt_sh_get (MUST (me))) vrt_fail ("C04", "a wake-up that had to reach this call was issued on a condition variable it was registered on and returned before its deadline, yet it slept on and returned count");
+		/* count means "none ready": sticky readiness (a notified note, a counter of this scenario at zero) that was completed before
+		   the call started, or strictly before its deadline, contradicts it */
+		for (i = 0; i < nobj; i++) {
+			long at = vrt_sh_get (RDY (i));
+			if (kind_of[i] == 2) continue;
+			if (rdy0[i]) vrt_fail ("C11", "returned count although object %d had been made ready before the call started", i);
+			if (at != 0 && at < dlns) vrt_fail ("C11", "returned count although object %d had been made ready (by a call that returned at %ld) before the deadline %lld", i, at, (long long) dlns);
+			if (kind_of[i] == 0 && (ndl[i] < dlns || ndl[i] < t0))
+				vrt_fail ("C11", "returned count although the deadline %lld of note %d lies before the call's start or deadline", (long long) ndl[i], i);
+		}
 	}
-	if (use_mu) { vrt_releasing (&mu, 1); vrt_note ("muunlock %d", vrt_self ()); nsync_mu_unlock (&mu); }
+	if (use_mu) { vrt_releasing (&mu, 1); vrt_sh_set (HOLDER, 0); vrt_note ("muunlock %d", me); nsync_mu_unlock (&mu); }
 	/* the frame of nsync_wait_n (and deep_call) is dead now: wake everything; any leftover registration is touched */
 	make_all_ready ();
 }
@@ -157,33 +292,67 @@ static void caller (void *a) {
 static void actor (void *a) {
 	int i = (int) (long) a;
 	vrt_point ("actor");
-	if (kind_of[i] == 0) { vrt_note ("ab %d notify %d", vrt_self (), i); nsync_note_notify (notes[i]); vrt_note ("ae %d", vrt_self ()); }
-	else if (kind_of[i] == 1) {
-		if (vrt_sh_add (DEC (i), 1) == 1) { vrt_note ("ab %d add %d -1", vrt_self (), i); nsync_counter_add (ctrs[i], -1); vrt_note ("ae %d", vrt_self ()); }
-	} else {
-		vrt_sh_set (SIGNALLED (i), 1);
-		if (vrt_rand (2)) { vrt_note ("ab %d signal %d", vrt_self (), i); nsync_cv_signal (&cvs[i]); }
-		else { note_broadcast (i, 0); vrt_note ("ab %d broadcast %d", vrt_self (), i); nsync_cv_broadcast (&cvs[i]); note_broadcast (i, 1); }
-		vrt_note ("ae %d", vrt_self ());
-	}
+	if (kind_of[i] == 0) ready_note (i);
+	else if (kind_of[i] == 1) ready_counter (i);
+	else wake_cv (i, (int) vrt_rand (2));
 	vrt_count ("actor");
 }
 
+static int ncall, nact, act_obj[MAXO + 1], npre;
+static char nm[12][8];
+static void spawn_all (void) {
+	int i;
+	for (i = 0; i < ncall; i++) { snprintf (nm[i], 8, "c%d", i); vrt_thread (nm[i], caller, NULL); }
+	for (i = 0; i < nact; i++) {
+		snprintf (nm[4 + i], 8, "a%d", i);
+		vrt_thread (nm[4 + i], actor, (void *) (long) act_obj[i]);
+	}
+}
+/* pre-phase (VRT_PRE): +1/-1 pairs and value reads on the counters BEFORE any wait has started (the counter's contract forbids
+   increments from zero once a wait began); every returned value must be one the counter can hold: at most one increment per
+   pre-thread is outstanding at any time */
+static void pre_thr (void *a) {
+	int me = vrt_self (), rounds = 1 + (int) vrt_rand (2), k, i, nc = 0, cs[MAXO];
+	for (i = 0; i < nobj; i++) if (kind_of[i] == 1) cs[nc++] = i;
+	for (k = 0; k < rounds && nc > 0; k++) {
+		unsigned v, lo;
+		i = cs[vrt_rand (nc)];
+		lo = base0[i];
+		vrt_note ("ab %d add %d 1", me, i); v = nsync_counter_add (ctrs[i], 1); vrt_note ("ae %d", me);
+		if (v < lo + 1 || v > lo + npre) vrt_fail ("C10", "nsync_counter_add (+1) on counter %d returned %u, possible: %u..%u", i, v, lo + 1, lo + npre);
+		if (vrt_rand (2)) { v = nsync_counter_value (ctrs[i]); if (v < lo + 1 || v > lo + npre) vrt_fail ("C10", "nsync_counter_value of counter %d = %u, possible: %u..%u", i, v, lo + 1, lo + npre); }
+		vrt_note ("ab %d add %d -1", me, i); v = nsync_counter_add (ctrs[i], -1); vrt_note ("ae %d", me);
+		if (v < lo || v > lo + npre - 1) vrt_fail ("C10", "nsync_counter_add (-1) on counter %d returned %u, possible: %u..%u", i, v, lo, lo + npre - 1);
+		if (vrt_rand (2)) { v = nsync_counter_value (ctrs[i]); if (v < lo || v > lo + npre - 1) vrt_fail ("C10", "nsync_counter_value of counter %d = %u, possible: %u..%u", i, v, lo, lo + npre - 1); }
+		vrt_count ("pre_pair");
+	}
+	if (vrt_sh_add (PREDONE, 1) == npre) {
+		for (i = 0; i < nobj; i++) if (kind_of[i] == 1 && nsync_counter_value (ctrs[i]) != base0[i])
+			vrt_fail ("C10", "after all +1/-1 pairs counter %d is %u, not its initial value %u", i, nsync_counter_value (ctrs[i]), base0[i]);
+		spawn_all ();
+	}
+}
+
 int main (void) {
-	int i, ncall = 1 + (int) vrt_rand (2), nact, act_obj[MAXO + 1];
-	static char nm[12][8];
+	int i, have_ctr = 0;
+	ncall = 1 + (int) vrt_rand (2);
 	nobj = vrt_opt ("NOBJ", 1 + (int) vrt_rand (MAXO));
 	vrt_register (&mu, sizeof (mu), "mu0");
 	for (i = 0; i < nobj; i++) {
 		kind_of[i] = vrt_opt ("KIND", (int) vrt_rand (3));
+		ndl[i] = INT64_MAX;
 		if (kind_of[i] == 0) {
 			int ready = vrt_rand (5) == 0;
-			notes[i] = nsync_note_new (NULL, vrt_rand (4) == 0 ? vrt_abs (1200) : nsync_time_no_deadline);
-			if (ready) nsync_note_notify (notes[i]);
+			nsync_time d = vrt_rand (4) == 0 ? vrt_abs (1200) : nsync_time_no_deadline;
+			if (nsync_time_cmp (d, nsync_time_no_deadline) != 0) ndl[i] = ts_ns (d);
+			notes[i] = nsync_note_new (NULL, d);
+			if (ready) { nsync_note_notify (notes[i]); vrt_sh_set (RDY (i), 1); ready0[i] = 1; }
 		} else if (kind_of[i] == 1) {
 			int zero = vrt_rand (5) == 0;
 			ctrs[i] = nsync_counter_new (zero ? 0 : 1);
-			if (zero) vrt_sh_set (DEC (i), 1);
+			base0[i] = zero ? 0 : 1;
+			have_ctr = 1;
+			if (zero) { vrt_sh_set (DEC (i), 1); vrt_sh_set (RDY (i), 1); ready0[i] = 1; }
 		}
 	}
 	for (i = 0; i < nobj; i++) {
@@ -195,11 +364,9 @@ int main (void) {
 	/* decide the actors first: callers need to know whether readiness is guaranteed */
 	nact = (int) vrt_rand (nobj + 1);
 	for (i = 0; i < nact; i++) { act_obj[i] = (int) vrt_rand (nobj); if (kind_of[act_obj[i]] != 2) sticky_actor = 1; }
-	for (i = 0; i < ncall; i++) { snprintf (nm[i], 8, "c%d", i); vrt_thread (nm[i], caller, NULL); }
-	for (i = 0; i < nact; i++) {
-		snprintf (nm[4 + i], 8, "a%d", i);
-		vrt_thread (nm[4 + i], actor, (void *) (long) act_obj[i]);
-	}
+	npre = have_ctr && vrt_opt ("PRE", vrt_rand (3) == 0) ? 1 + (int) vrt_rand (2) : 0;
+	if (npre == 0) spawn_all ();
+	else for (i = 0; i < npre; i++) { snprintf (nm[10 + i], 8, "p%d", i); vrt_thread (nm[10 + i], pre_thr, NULL); }
 	vrt_run ();
 	printf ("VRT-END ok\n");
 	return 0;
